@@ -9,7 +9,7 @@ CLAIM = dict(
 
 THEOREMS = ["C18_safe_after_failure_refuted", "C18_works_after_removal_refuted", "C18_refuted_fill", "C18_refuted_fill_removal",
             "C18_refuted_rebuild", "C18_refuted_resolve", "C18_refuted_stale", "C18_partial", "C18_partial_removal_rebuild",
-            "C18_partial_bad_analysis", "C18_hypotheses_inhabited"]
+            "C18_partial_bad_analysis", "C18_hypotheses_inhabited", "C18_meth_inhabited", "C18_domain_complement"]
 ASSUMPTIONS = ["resolution order is a parameter of the model (ChainOk: candidates are registered handlers, each appears once); the rank data sent to the model is validated per scenario against MultiTypeMap.mro on every prefix of the definitions",
                "single-argument methods without optional parameters and without value-dependent types; a line is abstracted to the step boundary before it (or after it while a visible statement is in flight)",
                "rewritten bodies that use call_next are flagged as such (MethOk)"]
@@ -219,6 +219,8 @@ def check_failure(ctx, case, mv, run, label, stats):
     failing = oracle(case, run)
     cls = classify(case, run)
     stats["class_hist"][str(cls)] += 1
+    if cls is None and case["trigger"][0] == "call":
+        stats["in_domain"] += 1          # a failure point of a call outside both windows: C18_partial speaks about it
     if not failing:
         stats["oracle_ok"] += 1
         return
@@ -294,7 +296,7 @@ def explore_case(ctx, case, stats, samples, budget_events=None, excs=("KeyboardI
 
 def run(ctx):
     stats = {"evaluations": 0, "traces_validated": 0, "injections": 0, "natural_faults": 0, "hook_faults": 0, "swallowed": 0,
-             "corr_fail": 0, "improved_in_known_class": 0, "oracle_ok": 0, "chain_invalid": 0, "events_total": 0, "loose_mappings": 0,
+             "corr_fail": 0, "in_domain": 0, "improved_in_known_class": 0, "oracle_ok": 0, "chain_invalid": 0, "events_total": 0, "loose_mappings": 0,
              "distinct": set(), "known": collections.Counter(), "class_hist": collections.Counter(), "scenario_kinds": collections.Counter()}
     samples = []
     t0 = time.time()
@@ -337,7 +339,7 @@ def run(ctx):
             "rule": "scenarios = random single-argument method sets over a small class universe (2-4 methods, call_next bodies, priorities), trigger = first call / register or unregister after first use / cache-miss call; EVERY executed library line of the trigger is a failure point for KeyboardInterrupt and for a RuntimeError subclass; plus natural faults (bare call_next, unreadable source, conflicting argument names at every registration position; hooks raising on their n-th call). An injection is non-trivial when at least one visible step (new table, swap, register, flag, dictionary write) has started before it; distinct by (scenario, completed visible steps, in-flight statement, file:line)",
             "samples": samples, "traces_validated_against_impl": stats["traces_validated"], "injections": stats["injections"],
             "natural_faults": stats["natural_faults"], "hook_faults": stats["hook_faults"], "library_line_events_enumerated": stats["events_total"],
-            "probe_vectors_satisfying_oracle": stats["oracle_ok"], "failures_attributed": dict(stats["known"]),
+            "probe_vectors_satisfying_oracle": stats["oracle_ok"], "failure_points_in_proved_domain_safe_point": stats["in_domain"], "failures_attributed": dict(stats["known"]),
             "failure_point_class_histogram": dict(stats["class_hist"]), "scenario_kind_histogram": dict(stats["scenario_kinds"]),
             "scenarios_skipped_chain_data_invalid": stats["chain_invalid"], "injected_exception_swallowed": stats["swallowed"],
             "mappings_without_markers": stats["loose_mappings"], "better_than_model_inside_known_class": stats["improved_in_known_class"], "wall_explore_s": round(time.time() - t0, 1)}
@@ -361,8 +363,11 @@ def replay(ctx, payload):
     cls = classify(core, run)
     print(json.dumps({"fired": run["fired"], "snap": snap, "trigger": run["trigger"], "after": run["after"], "model_predicts": sorted(pred),
                       "oracle_failing_probes": failing, "class": cls}))
+    if failure is None or "natural" in failure:
+        if run["trigger"] != mv.final["result"] or run["after"] != mv.final["after"]:
+            return bool(failing) or cls is None
     if json.dumps(run["after"]) not in pred:
-        return True
+        return bool(failing) or cls is None
     return bool(failing) and cls is None
 
 
